@@ -20,6 +20,7 @@ import scipy.stats as st
 from verifkit import sim as S
 from verifkit.common import canon_hash, np_seed, short_exc, tb_tail
 from verifkit.gen import events as GE
+from verifkit.gen import specs as G
 
 ID = "C05"
 CELL_BUDGET = 5000
@@ -47,7 +48,7 @@ def plan(tier):
 def floors(tier):
     return {"nontrivial": 8, "counter:gridded_configurations": 2, "counter:raw_configurations": 6, "counter:cells_judged": 80, "counter:runs": 200000, "counter:events_simulated": 1000000,
             "class:first-step": 2, "class:chain": 2, "class:immigration-death": 2, "class:sir-final-size": 2,
-            "class:int-number-types": 4, "class:float-number-types": 4}   # (the optional parallel lane has no floors of its own)
+            "class:int-number-types": 4, "class:float-number-types": 4, "counter:permuted_twin_first": 4}   # (the optional parallel lane has no floors of its own)
 
 
 def region(n, p, alpha=ALPHA_CELL):
@@ -168,6 +169,18 @@ def run_case(rng, idx, tier, lane, ctx):
     cfg["read_from"] = "gridded output" if gridded else "raw path"
     cfg["parallel"] = par
     try:
+        # a session holds more than one model: in half of the configurations the same definition DECLARED in another order (states and
+        # parameters permuted, rates untouched) is built and simulated first in the same process; the judged model keeps its own law
+        tw = G.permuted_twin_spec(spec, rng) if (kind != "first-step" and (idx // 3) % 2 == 0) else None
+        if tw is not None:
+            th_tw = [theta[spec["params"].index(p_)] for p_ in tw["params"]]
+            x0_tw = [int(np.asarray(x0)[spec["states"].index(s_)]) for s_ in tw["states"]]
+            with contextlib.redirect_stdout(io.StringIO()):
+                m_tw = S.build_sim(tw, th_tw, x0_tw)
+                np.random.seed(seed ^ 0x5A5A)
+                m_tw.solve_stochast(min(horizon, 2.0), 3, exact=True, full_output=True)
+            counters["permuted_twin_first"] = 1
+            cfg["permuted_twin_simulated_first"] = {"states": tw["states"], "params": tw["params"]}
         m = S.build_sim(spec, theta, x0)
         np.random.seed(seed)
         with contextlib.redirect_stdout(io.StringIO()):
